@@ -165,14 +165,23 @@ impl Remover {
                     - Self::merge_child_markers(child_markers.iter().rev(), &mut end_marker);
 
                 let current = acc.len();
-                acc.push((
-                    marker,
-                    Some(current + (end_cursor - start_cursor).max(0) + 1),
-                ));
-                if start_cursor < end_cursor {
-                    acc.extend(child_markers[start_cursor..end_cursor].to_owned());
+                if start_cursor > end_cursor {
+                    // A child reaches from the opening part into the closing part:
+                    // nothing is left between them, the element is one range.
+                    acc.push((marker.start..end_marker.end, None));
+                } else {
+                    // Children keep their pair only when both halves are kept,
+                    // and pair indices point into `acc`, not into `child_markers`.
+                    let children = &child_markers[start_cursor..end_cursor];
+                    acc.push((marker, Some(current + children.len() + 1)));
+                    acc.extend(children.iter().map(|(range, pair_idx)| {
+                        let pair_idx = pair_idx
+                            .filter(|idx| (start_cursor..end_cursor).contains(idx))
+                            .map(|idx| idx - start_cursor + current + 1);
+                        (range.clone(), pair_idx)
+                    }));
+                    acc.push((end_marker, Some(current)));
                 }
-                acc.push((end_marker, Some(current)));
             } else {
                 acc.push((marker, None));
             }
